@@ -243,6 +243,11 @@ class ScriptedBroker(AsyncBroker):
             self.new_delivery(info)
             info["payload"] = message.message
             self._arrive(info, scripted=False)
+        if n in (sc.spec.get("kick_lost") or []):
+            # the broker took the message but its confirmation got lost: the send fails although the message is on its way
+            sc.trace.add("kick_lost", OWNER.get(), task_id=message.task_id, n=n)
+            raise {"ConnectionError": ConnectionError, "TimeoutError": TimeoutError,
+                   "ConnectionResetError": ConnectionResetError}[sc.spec.get("kick_lost_exc", "ConnectionError")]("confirmation lost")
 
     def _fault(self) -> None:
         self.fault_pending = True
@@ -1139,6 +1144,8 @@ def run_worker(spec: Dict[str, Any], real: bool = False) -> RunResult:
             )
         else:
             broker = ScriptedBroker(sc)
+        if spec.get("worker_flag"):
+            broker.is_worker_process = True
         bk_cls: Any = RecordingBackend
         if spec.get("backend", {}).get("kind") == "dummy_sub":
             # an application backend written as a subclass of the bundled DummyResultBackend that overrides the writes
